@@ -555,7 +555,7 @@ def judge (d : DState) : Verdict × DState :=
       let v := if !implOk then
           (if p.deltas.isEmpty then v.check "C11" "unmodelled_request_refused" true
            else (v.check "C11" "refused_changes_nothing" false).check "C05" "refused_changes_nothing" false)
-        else if p.deltas.isEmpty && implResp.msgs.isEmpty then v.check "C11" "unmodelled_request_inert" true
+        else if p.deltas.isEmpty && implResp.msgs.isEmpty && funds.isEmpty then v.check "C11" "unmodelled_request_inert" true
         else
           let s' := p.deltas.foldl applyDelta s
           let c : Call := { sender := sender, funds := funds, msg := .cancelAsk "" }
@@ -564,7 +564,9 @@ def judge (d : DState) : Verdict × DState :=
             (if implResp.msgs.isEmpty then [] else ["C01"]) ++
             (if bookSame then [] else ["C11"]) ++
             (if s'.info == s.info then [] else ["C12"]) ++
-            (if s'.version == s.version then [] else ["C14"]) ++ ["C05"]
+            (if s'.version == s.version then [] else ["C14"]) ++
+            -- (funds kept by a request that does nothing else are stranded: C01 only)
+            (if p.deltas.isEmpty && implResp.msgs.isEmpty then ["C01"] else ["C05"])
           let v := v.diff ("unmodelled-entry-point:" ++ name) touched.eraseDups
           let v := (denomsOf env.contract s s' c implResp).eraseDups.foldl
             (fun v dn => v.check "C01" ("C01_denomOK:" ++ dn) (C01_denomOK env.contract s c implResp s' dn)) v
@@ -583,7 +585,8 @@ def judge (d : DState) : Verdict × DState :=
              ((s.asks.isEmpty && s.bids.isEmpty) || subsetS i.approvers i'.approvers) &&
              (i' == i || (!i'.approvers.isEmpty && !i'.executors.isEmpty)))
           -- nobody but an executor operates on the book or the configuration
-          v.check "C05" "C05_unmodelled_effect" (memS sender s.info.executors)
+          if p.deltas.isEmpty && implResp.msgs.isEmpty then v
+          else v.check "C05" "C05_unmodelled_effect" (memS sender s.info.executors)
       (v, d)
   | .query q =>
     match d.st with
